@@ -83,6 +83,9 @@ class FortranCodegenConservative(FortranCodegen):
 
             header = o.source.string.splitlines()[0]
 
+            # The header of an ELSE IF branch is taken from source as well
+            kwargs.pop('is_elseif', None)
+
             self.depth += self.style.conditional_indent
             body = self.visit(o.body, **kwargs)
             if o.has_elseif:
